@@ -1000,3 +1000,132 @@ proof fn lemma_chain_step(xs: Seq<u32>, i: int, s: Set<u32>)
         assert(s.remove(v) =~= tail.to_set());
     }
 }
+
+// ============================================================================================
+// count:  card(r) (what the code computes, structurally)  ==  the number of member sets of r
+// ============================================================================================
+spec fn fam(nodes: Seq<ZddNode>, r: ZddRef) -> Set<Set<u32>>
+    decreases rank(r)
+{
+    match r {
+        ZddRef::Empty => Set::<Set<u32>>::empty(),
+        ZddRef::Base => Set::<Set<u32>>::empty().insert(Set::<u32>::empty()),
+        ZddRef::Node(id) => {
+            if (id as int) < nodes.len() && valid(nodes[id as int].lo, id as int) && valid(nodes[id as int].hi, id as int) {
+                let v = nodes[id as int].var;
+                fam(nodes, nodes[id as int].lo) + fam(nodes, nodes[id as int].hi).map(|t: Set<u32>| t.insert(v))
+            } else { Set::<Set<u32>>::empty() }
+        }
+    }
+}
+
+proof fn lemma_fam_mem(nodes: Seq<ZddNode>, r: ZddRef, s: Set<u32>)
+    requires nodes_ok(nodes), valid(r, nodes.len() as int),
+    ensures fam(nodes, r).contains(s) == mem(nodes, r, s),
+    decreases rank(r)
+{
+    match r {
+        ZddRef::Node(id) => {
+            let nd = nodes[id as int]; let v = nd.var;
+            assert(node_ok(nodes, id as int));
+            let f = |t: Set<u32>| t.insert(v);
+            let mapped = fam(nodes, nd.hi).map(f);
+            lemma_fam_mem(nodes, nd.lo, s);
+            lemma_fam_mem(nodes, nd.hi, s.remove(v));
+            if mapped.contains(s) {
+                let t = choose|t: Set<u32>| fam(nodes, nd.hi).contains(t) && f(t) == s;
+                lemma_fam_mem(nodes, nd.hi, t);
+                if t.contains(v) { lemma_elems_ge_top(nodes, nd.hi, t, v); }
+                assert(s.remove(v) =~= t);
+            }
+            if s.contains(v) && mem(nodes, nd.hi, s.remove(v)) {
+                let t = s.remove(v);
+                assert(fam(nodes, nd.hi).contains(t));
+                assert(f(t) =~= s);
+                assert(mapped.contains(s));
+            }
+        }
+        ZddRef::Base => {
+            if s =~= Set::<u32>::empty() { assert(s == Set::<u32>::empty()); }
+        }
+        _ => {}
+    }
+}
+
+proof fn lemma_map_insert_len(b: Set<Set<u32>>, v: u32)
+    requires forall|t: Set<u32>| b.contains(t) ==> !t.contains(v),
+    ensures b.map(|t: Set<u32>| t.insert(v)).len() == b.len(),
+    decreases b.len()
+{
+    let f = |t: Set<u32>| t.insert(v);
+    if b.len() == 0 {
+        assert(b =~= Set::<Set<u32>>::empty());
+        assert(b.map(f) =~= Set::<Set<u32>>::empty());
+    } else {
+        let x = b.choose();
+        let b1 = b.remove(x);
+        lemma_map_insert_len(b1, v);
+        assert(!b1.map(f).contains(f(x))) by {
+            if b1.map(f).contains(f(x)) {
+                let t = choose|t: Set<u32>| b1.contains(t) && f(t) == f(x);
+                assert(t.insert(v).remove(v) =~= t); assert(x.insert(v).remove(v) =~= x);
+                assert(t == x);
+            }
+        }
+        assert(b.map(f) =~= b1.map(f).insert(f(x))) by {
+            assert forall|y: Set<u32>| b.map(f).contains(y) == b1.map(f).insert(f(x)).contains(y) by {
+                if b.map(f).contains(y) {
+                    let t = choose|t: Set<u32>| b.contains(t) && f(t) == y;
+                    if t != x { assert(b1.contains(t)); assert(b1.map(f).contains(y)); }
+                }
+                if b1.map(f).contains(y) {
+                    let t = choose|t: Set<u32>| b1.contains(t) && f(t) == y;
+                    assert(b.contains(t));
+                }
+                if y == f(x) { assert(b.contains(x)); }
+            }
+        }
+    }
+}
+
+// the structural count equals the number of distinct member sets
+proof fn lemma_card_is_cardinality(nodes: Seq<ZddNode>, r: ZddRef)
+    requires nodes_ok(nodes), valid(r, nodes.len() as int),
+    ensures fam(nodes, r).len() == card(nodes, r),
+        forall|s: Set<u32>| fam(nodes, r).contains(s) == mem(nodes, r, s),
+    decreases rank(r)
+{
+    assert forall|s: Set<u32>| fam(nodes, r).contains(s) == mem(nodes, r, s) by { lemma_fam_mem(nodes, r, s); }
+    match r {
+        ZddRef::Node(id) => {
+            let nd = nodes[id as int]; let v = nd.var;
+            assert(node_ok(nodes, id as int));
+            let f = |t: Set<u32>| t.insert(v);
+            let a = fam(nodes, nd.lo); let b = fam(nodes, nd.hi); let mapped = b.map(f);
+            lemma_card_is_cardinality(nodes, nd.lo);
+            lemma_card_is_cardinality(nodes, nd.hi);
+            assert forall|t: Set<u32>| b.contains(t) implies !t.contains(v) by {
+                lemma_fam_mem(nodes, nd.hi, t);
+                if t.contains(v) { lemma_elems_ge_top(nodes, nd.hi, t, v); }
+            }
+            lemma_map_insert_len(b, v);
+            assert(a.disjoint(mapped)) by {
+                assert forall|s: Set<u32>| !(a.contains(s) && mapped.contains(s)) by {
+                    if a.contains(s) && mapped.contains(s) {
+                        lemma_fam_mem(nodes, nd.lo, s);
+                        let t = choose|t: Set<u32>| b.contains(t) && f(t) == s;
+                        assert(s.contains(v));
+                        lemma_elems_ge_top(nodes, nd.lo, s, v);
+                    }
+                }
+            }
+            vstd::set_lib::lemma_set_disjoint_lens(a, mapped);
+        }
+        ZddRef::Base => {
+            assert(fam(nodes, r).len() == 1);
+        }
+        ZddRef::Empty => {
+            assert(fam(nodes, r).len() == 0);
+        }
+    }
+}
